@@ -166,6 +166,13 @@ def _p_norm(p: float, critical_pairs: list = []):
                 result += np.abs(ev_x1 + ev_x0 - 2 * ev_z)
             # segment does not cross the x-axis
             else:
+                lo, hi = sorted((np.abs(y0), np.abs(y1)))
+                if hi - lo <= 1e-4 * hi:
+                    # nearly flat (e.g. flat up to rounding noise): the antiderivative difference below cancels
+                    # catastrophically, so evaluate (hi^(p+1) - lo^(p+1)) / (hi - lo) through expm1 instead
+                    u = np.log(hi / lo)
+                    result += (lo ** p) * (x1 - x0) * np.expm1((p + 1) * u) / (np.expm1(u) * (p + 1))
+                    continue
                 ev_x1 = np.abs(slope * x1 + b) ** (p + 1) / (slope * (p + 1))
                 ev_x0 = np.abs(slope * x0 + b) ** (p + 1) / (slope * (p + 1))
                 result += np.abs(ev_x1 - ev_x0)
